@@ -17,13 +17,16 @@ import (
 func init() { engines["wire"] = engineWire }
 
 func engineWire(rep *Report) {
-	subs := subjectsForShard()
+	subs := allSubjects()
 	n := perType(200, 8000)
 	only := onlyIndex()
-	for _, s := range subs {
+	for ti, s := range subs {
 		rep.Types = append(rep.Types, string(s.FullName))
 		d := s.Zero.ProtoReflect().Descriptor()
 		for i := 0; i < n; i++ {
+			if !mineCase(ti, i) {
+				continue
+			}
 			if only >= 0 && i != only {
 				continue
 			}
